@@ -11,7 +11,8 @@ Driver for C02.
 * `oracle` — reads an implementation trace and checks the window caps (`≤ T`, and `≤ T + (k-1)·maxBatch`
              once `k` entries were simultaneously inside the admission path) from the observed decisions
 
-Ops:  `clock <ms>` · `load <n> <res,thr,iv,ref>*n` (thr = `f:<hex16>`, ref = `-` or a resource) ·
+Ops (`entry` and `par` take an optional last token `type=<t>[,…]`, ignored by model and spec):
+      `clock <ms>` · `load <n> <res,thr,iv,ref>*n` (thr = `f:<hex16>`, ref = `-` or a resource) ·
       `entry <res> <batch>` · `par <res> <b0,b1,…> <i0,i1,…>` (schedule of thread ids: first occurrence =
       check phase, second = statistic phase) · `sum <res>` (pass sum of the node's default view, `-` = no node)
 -/
@@ -53,6 +54,20 @@ def parseRules : List String → Option (List Rule)
 def parseNats (s : String) : Option (List Nat) :=
   (s.splitOn ",").foldr (fun x acc => match x.toNat?, acc with
     | some n, some l => some (n :: l) | _, _ => none) (some [])
+
+/-- the optional trailing token `type=<t>[,<t>…]` (`api.WithResourceType`), one type per caller; it never
+    influences a decision — the statistic of a flow rule is per resource **name** -/
+def typeTokOk (tok : String) (n : Nat) : Bool :=
+  tok.startsWith "type=" &&
+    (let names := (tok.drop 5).toString.splitOn ","
+     names.length == n && names.all fun t => ["common", "web", "rpc", "gateway", "dbsql", "cache", "mq"].contains t)
+
+/-- drop a well-formed type token from an `entry` / `par` op -/
+def stripType (ts : List String) : Option (List String) :=
+  match ts with
+  | ["entry", res, b, ty] => if typeTokOk ty 1 then some ["entry", res, b] else none
+  | ["par", res, bs, sched, ty] => if typeTokOk ty (bs.splitOn ",").length then some ["par", res, bs, sched] else none
+  | _ => some ts
 
 def showD : Option Nat → String
   | none => "pass"
@@ -202,8 +217,11 @@ def stepOracle (st : DSt) (ts : List String) (line : String) : DSt × Option Str
   | _ => (st, some "bad-op")
 
 def run (mode : String) : IO Unit :=
-  if mode == "spec" then loop ({} : DSt) (fun st ts _ => stepSpec st ts)
-  else if mode == "oracle" then loop ({} : DSt) stepOracle
-  else loop ({} : DSt) (fun st ts _ => stepModel st ts)
+  if mode == "spec" then loop ({} : DSt) (fun st ts _ => match stripType ts with
+    | some ts => stepSpec st ts | none => (st, some "bad-op"))
+  else if mode == "oracle" then loop ({} : DSt) (fun st ts line => match stripType ts with
+    | some ts => stepOracle st ts line | none => (st, some "bad-op"))
+  else loop ({} : DSt) (fun st ts _ => match stripType ts with
+    | some ts => stepModel st ts | none => (st, some "bad-op"))
 
 end Sentinel.Drv.C02
